@@ -55,12 +55,13 @@ func runC03(r *harness.Run) {
 // ---- F-closure ---------------------------------------------------------------------------------------
 
 // Each program:
-//   local fns = {}                       closures are collected here as (getter, setter) pairs
-//   local function reuse(...)            a call with 6 arguments and 6 locals that reuses registers
-//   local function site(...) <site> end  the capture site with an exit route inside
-//   <driver: how site is called, depends on the exit route>
-//   <afterwards>
-//   <use>
+//
+//	local fns = {}                       closures are collected here as (getter, setter) pairs
+//	local function reuse(...)            a call with 6 arguments and 6 locals that reuses registers
+//	local function site(...) <site> end  the capture site with an exit route inside
+//	<driver: how site is called, depends on the exit route>
+//	<afterwards>
+//	<use>
 func genClosure(thorough bool) Gen {
 	return func(yield func(*Prog)) {
 		push := func(e Expr) Stat {
@@ -89,7 +90,9 @@ func genClosure(thorough bool) Gen {
 			{"goto-out", false, func() []Stat { return []Stat{Goto("out")} }, "call"},
 			{"goto-cont", true, func() []Stat { return []Stat{Goto("cont")} }, "call"},
 			{"return", false, func() []Stat { return []Stat{Do(Return(Str("r")))} }, "call"},
-			{"tailcall", false, func() []Stat { return []Stat{Do(Return(CallN("reuse", Num(1), Num(2), Num(3), Num(4), Num(5), Num(6))))} }, "call"},
+			{"tailcall", false, func() []Stat {
+				return []Stat{Do(Return(CallN("reuse", Num(1), Num(2), Num(3), Num(4), Num(5), Num(6))))}
+			}, "call"},
 			{"error-pcall", false, func() []Stat { return []Stat{CallS(Name("error"), Str("boom"))} }, "pcall"},
 			{"error-xpcall", false, func() []Stat { return []Stat{CallS(Name("error"), Str("boom"))} }, "xpcall"},
 			{"errtable-pcall", false, func() []Stat { return []Stat{CallS(Name("error"), TableE(NamedField("code", Num(7))))} }, "pcall"},
